@@ -1524,3 +1524,99 @@ example : (PL.mk [false, false, true, false, false, true, false]).textObj 0 4 tr
 example : (PL.mk [false, false, true, false, false, true, false]).textObj 2 1 true = some (2, 4) := by decide
 
 end Vicut.ParaObj
+
+/-! # Sentence motions `)` and `(` -/
+namespace Vicut.Sentence
+open Vicut
+
+theorem skip_ge (s : SK) (v f i : Nat) : i ≤ s.skip v f i := by
+  induction f generalizing i with
+  | zero => simp [SK.skip]
+  | succ f ih => simp only [SK.skip]; split
+                 · have := ih (i + 1); omega
+                 · omega
+
+/-- **Every sentence start is a position of the text.** -/
+theorem starts_in_text (s : SK) (i : Nat) (h : s.isStart i = true) : i < s.len := by
+  unfold SK.isStart SK.startsList at h
+  simp only [List.contains_eq_mem, List.mem_append, List.mem_flatMap, List.mem_range, decide_eq_true_eq] at h
+  rcases h with h | ⟨q, hq, hc⟩
+  · split at h
+    · simp at h; omega
+    · simp at h
+  · unfold SK.contrib at hc
+    split at hc
+    · simp only [List.mem_append] at hc
+      rcases hc with hc | hc
+      · split at hc
+        · simp at hc; omega
+        · simp at hc
+      · split at hc
+        · rename_i hk
+          simp only [Bool.and_eq_true, decide_eq_true_eq] at hk
+          simp at hc; omega
+        · simp at hc
+    · split at hc
+      · simp only at hc
+        split at hc
+        · simp at hc
+          first | omega | (obtain ⟨h1, h2⟩ := hc; omega)
+        · simp at hc
+          first | omega | (obtain ⟨_, h1, h2⟩ := hc; omega) | (obtain ⟨h1, h2⟩ := hc; omega)
+      · simp at hc
+
+/-- **`)` goes forward and `(` goes backward, onto sentence starts.** -/
+theorem nextStart_spec (s : SK) (pos p : Nat) (h : s.nextStart pos = some p) : pos < p ∧ s.isStart p = true := by
+  unfold SK.nextStart at h
+  have hm := List.mem_of_find?_eq_some h
+  have hp := List.find?_some h
+  rw [List.mem_range'_1] at hm
+  exact ⟨by omega, hp⟩
+
+theorem prevStart_spec (s : SK) (pos p : Nat) (h : s.prevStart pos = some p) : p < pos ∧ s.isStart p = true := by
+  unfold SK.prevStart at h
+  have hm := List.mem_of_find?_eq_some h
+  have hp := List.find?_some h
+  rw [List.mem_reverse, List.mem_range] at hm
+  exact ⟨hm, hp⟩
+
+theorem backGo_spec (s : SK) (n pos p : Nat) (h : s.backGo n pos = some p) :
+    p ≤ pos ∧ (n > 0 → p < pos ∧ s.isStart p = true) := by
+  induction n generalizing pos with
+  | zero => simp [SK.backGo] at h; subst h; exact ⟨Nat.le_refl _, fun h => absurd h (by omega)⟩
+  | succ n ih =>
+    simp only [SK.backGo] at h
+    cases hp : s.prevStart pos with
+    | none => simp [hp] at h
+    | some q =>
+      simp only [hp] at h
+      obtain ⟨a, b⟩ := prevStart_spec s pos q hp
+      obtain ⟨c, d⟩ := ih q h
+      refine ⟨by omega, fun _ => ?_⟩
+      by_cases hn : n > 0
+      · obtain ⟨e, f⟩ := d hn; exact ⟨by omega, f⟩
+      · have : n = 0 := by omega
+        subst this
+        simp [SK.backGo] at h
+        subst h
+        exact ⟨a, b⟩
+
+/-- **The first sentence starts with the buffer**, and an empty line after text starts one. -/
+theorem buffer_start_is_a_start (s : SK) (h : s.len > 0) : s.isStart 0 = true := by
+  unfold SK.isStart SK.startsList
+  simp [h]
+
+/-- "Hi. Yo!  X" + terminator: kinds 0 0 3 1 0 0 3 1 1 0 2 — the starts are 0, 4 and 9. -/
+example : (SK.mk [0, 0, 3, 1, 0, 0, 3, 1, 1, 0, 2]).nextStart 0 = some 4 := by decide
+example : (SK.mk [0, 0, 3, 1, 0, 0, 3, 1, 1, 0, 2]).nextStart 4 = some 9 := by decide
+example : (SK.mk [0, 0, 3, 1, 0, 0, 3, 1, 1, 0, 2]).prevStart 5 = some 4 := by decide
+example : (SK.mk [0, 0, 3, 1, 0, 0, 3, 1, 1, 0, 2]).prevStart 4 = some 0 := by decide
+example : (SK.mk [0, 0, 3, 1, 0, 0, 3, 1, 1, 0, 2]).evalSentence 9 1 true false = .null := by decide
+example : (SK.mk [0, 0, 3, 1, 0, 0, 3, 1, 1, 0, 2]).evalSentence 5 2 false false = .on 0 := by decide
+/-- an empty line is a sentence of its own: "a" nl nl "b" nl -/
+example : (SK.mk [0, 2, 2, 0, 2]).nextStart 0 = some 2 := by decide
+example : (SK.mk [0, 2, 2, 0, 2]).nextStart 2 = some 3 := by decide
+/-- a dot inside a word ends nothing: "a.b c" -/
+example : (SK.mk [0, 3, 0, 1, 0, 2]).nextStart 0 = none := by decide
+
+end Vicut.Sentence
